@@ -248,6 +248,7 @@ func shiftsClosed(src []byte, n int) bool {
 //@   ensures err == nil ==> nSrc == len(src)
 //@   ensures err == nil && atEOF ==> d.ascii
 //@   ensures err == nil && !atEOF && len(src) > 0 ==> d.ascii == !endsWithShift(old(src), len(src))
+//@   ensures err == ErrInvalidUTF7 && !atEOF ==> !(nSrc < len(src) && old(src[nSrc]) == '&' && (forall k int :: nSrc < k && k < len(src) ==> old(src[k]) != '-' && old(src[k]) != 13 && old(src[k]) != 10))
 //@   ensures err == nil ==> forall k int :: 0 <= k && k < len(src) ==> printable(old(src[k]))
 //@   ensures !old(d.ascii) && len(src) >= 2 && old(src[0]) == '&' && old(src[1]) != '-' ==> err != nil
 //@   ensures err == transform.ErrShortSrc ==> !atEOF
